@@ -1,4 +1,4 @@
-import TwistedProps.C15.Stream
+import TwistedProps.C15.Base0
 /-!
 C15 lemmas — closed forms of the handlers on a transport whose sockets are in a normal state
 (used by the clean-close proofs in `Close.lean`).
@@ -9,37 +9,37 @@ open Twisted.Transport.Tcp
 /-! ### dispatch -/
 
 theorem io_idle (p : Params) (v : View) (i o h : Bool) (nr nw : Nat)
-    (hr : v.c.reading = false) (hw : v.c.writing = false) : io p v i o h nr nw = v := by
-  simp [io, hr, hw]
+    (hr : v.c.reading = false) (hw : v.c.writing = false) : io0 p v i o h nr nw = v := by
+  simp [io0, hr, hw]
 
-theorem rtw_ff (p : Params) (v : View) (nr nw : Nat) : readThenWrite p v false false nr nw = v := by
-  simp [readThenWrite]
+theorem rtw_ff (p : Params) (v : View) (nr nw : Nat) : readThenWrite0 p v false false nr nw = v := by
+  simp [readThenWrite0]
 
 theorem rtw_ft (p : Params) (v : View) (nr nw : Nat) :
-    readThenWrite p v false true nr nw =
-      match doWrite p v nw with
+    readThenWrite0 p v false true nr nw =
+      match doWrite0 p v nw with
       | (some w, v') => disconnectSelectable v' w false
       | (none, v') => v' := by
-  cases h : doWrite p v nw with
-  | mk r v' => cases r <;> simp [readThenWrite, h]
+  cases h : doWrite0 p v nw with
+  | mk r v' => cases r <;> simp [readThenWrite0, h]
 
 theorem rtw_t (p : Params) (v : View) (o : Bool) (nr nw : Nat) :
-    readThenWrite p v true o nr nw =
-      match doRead p v nr with
+    readThenWrite0 p v true o nr nw =
+      match doRead0 p v nr with
       | (some w, v') => disconnectSelectable v' w true
-      | (none, v') => readThenWrite p v' false o nr nw := by
-  cases h : doRead p v nr with
-  | mk r v' => cases r <;> simp [readThenWrite, h]
+      | (none, v') => readThenWrite0 p v' false o nr nw := by
+  cases h : doRead0 p v nr with
+  | mk r v' => cases r <;> simp [readThenWrite0, h]
 
 /-- a live transport on which a hang-up is only ever reported together with readability: the dispatch is
-    `doRead` (if registered for reading) then `doWrite` (if registered for writing) -/
+    `doRead0` (if registered for reading) then `doWrite0` (if registered for writing) -/
 theorem io_rtw (p : Params) (v : View) (i o h : Bool) (nr nw : Nat)
     (hh : hupCond v.k = true → v.c.reading = true ∨ v.c.writing = true → v.c.reading = true)
     (hs : v.c.hasSocket = true) :
     ∃ ie oe, (ie = true → v.c.reading = true) ∧ (oe = true → v.c.writing = true) ∧
       (i = true → v.c.reading = true → ie = true) ∧ (o = true → v.c.writing = true → oe = true) ∧
-      io p v i o h nr nw = readThenWrite p v ie oe nr nw := by
-  unfold io
+      io0 p v i o h nr nw = readThenWrite0 p v ie oe nr nw := by
+  unfold io0
   dsimp only
   split
   · rename_i h0
@@ -59,29 +59,29 @@ theorem io_rtw (p : Params) (v : View) (i o h : Bool) (nr nw : Nat)
       · intro hi hr; simp [hi, hr]
       · intro ho hw; simp [ho, hw]
 
-/-! ### doRead -/
+/-! ### doRead0 -/
 
-/-- the four outcomes of `doRead` on a transport that is not aborting -/
+/-- the four outcomes of `doRead0` on a transport that is not aborting -/
 theorem doRead_cases (p : Params) (v : View) (n : Nat) (ha : v.c.aborting = false) :
-    ((n = 0 ∨ (v.k.inq = [] ∧ v.k.inRst = false ∧ v.k.inFin = false)) ∧ doRead p v n = (none, v)) ∨
-    (n ≠ 0 ∧ v.k.inq ≠ [] ∧ doRead p v n =
+    ((n = 0 ∨ (v.k.inq = [] ∧ v.k.inRst = false ∧ v.k.inFin = false)) ∧ doRead0 p v n = (none, v)) ∨
+    (n ≠ 0 ∧ v.k.inq ≠ [] ∧ doRead0 p v n =
       (none, { v with c := { v.c with received := v.c.received ++ v.k.inq.take (min n p.recvMax) },
                       k := { v.k with inq := v.k.inq.drop (min n p.recvMax) } })) ∨
-    (n ≠ 0 ∧ v.k.inq = [] ∧ v.k.inRst = true ∧ doRead p v n = (some .lost, v)) ∨
-    (n ≠ 0 ∧ v.k.inq = [] ∧ v.k.inRst = false ∧ v.k.inFin = true ∧ doRead p v n = (some .done, v)) := by
+    (n ≠ 0 ∧ v.k.inq = [] ∧ v.k.inRst = true ∧ doRead0 p v n = (some .lost, v)) ∨
+    (n ≠ 0 ∧ v.k.inq = [] ∧ v.k.inRst = false ∧ v.k.inFin = true ∧ doRead0 p v n = (some .done, v)) := by
   by_cases hn : n = 0
-  · exact Or.inl ⟨Or.inl hn, by simp [doRead, kRecv, ha, hn]⟩
+  · exact Or.inl ⟨Or.inl hn, by simp [doRead0, kRecv, ha, hn]⟩
   by_cases hq : v.k.inq = []
   · by_cases hr : v.k.inRst = true
-    · exact Or.inr (Or.inr (Or.inl ⟨hn, hq, hr, by simp [doRead, kRecv, ha, hn, hq, hr]⟩))
+    · exact Or.inr (Or.inr (Or.inl ⟨hn, hq, hr, by simp [doRead0, kRecv, ha, hn, hq, hr]⟩))
     · by_cases hf : v.k.inFin = true
-      · exact Or.inr (Or.inr (Or.inr ⟨hn, hq, by simpa using hr, hf, by simp [doRead, kRecv, ha, hn, hq, hr, hf]⟩))
-      · exact Or.inl ⟨Or.inr ⟨hq, by simpa using hr, by simpa using hf⟩, by simp [doRead, kRecv, ha, hn, hq, hr, hf]⟩
-  · exact Or.inr (Or.inl ⟨hn, hq, by simp [doRead, kRecv, ha, hn, hq]⟩)
+      · exact Or.inr (Or.inr (Or.inr ⟨hn, hq, by simpa using hr, hf, by simp [doRead0, kRecv, ha, hn, hq, hr, hf]⟩))
+      · exact Or.inl ⟨Or.inr ⟨hq, by simpa using hr, by simpa using hf⟩, by simp [doRead0, kRecv, ha, hn, hq, hr, hf]⟩
+  · exact Or.inr (Or.inl ⟨hn, hq, by simp [doRead0, kRecv, ha, hn, hq]⟩)
 
-/-! ### doWrite -/
+/-! ### doWrite0 -/
 
-/-- what `doWrite` does once the buffers are empty -/
+/-- what `doWrite0` does once the buffers are empty -/
 def finishW (v : View) : Option Reason × View :=
   if v.c.disconnecting then (some .done, v)
   else if v.c.writeDisconnecting then
@@ -101,7 +101,7 @@ theorem pending_consume (p : Params) (c : Conn) (l : Nat) (hl : l ≤ (offered p
 theorem pending_mergeBuf (p : Params) (c : Conn) : pending (mergeBuf p c) = pending c :=
   (sameData_mergeBuf p c).2.2.1
 
-/-- after the merge step, an empty offer means that nothing at all is pending and the flush test succeeds -/
+/-- after the merge step0, an empty offer means that nothing at all is pending and the flush test succeeds -/
 theorem offered_empty (p : Params) (c : Conn) (hp : 0 < p.sendLimit) (h : offered p (mergeBuf p c) = []) :
     (mergeBuf p c).offset = (mergeBuf p c).dataBuffer.length ∧ (mergeBuf p c).temp = [] := by
   by_cases hc : c.dataBuffer.length - c.offset < p.sendLimit
@@ -118,12 +118,12 @@ theorem offered_empty (p : Params) (c : Conn) (hp : 0 < p.sendLimit) (h : offere
       omega
 
 theorem afterSend_eq (v : View) (off : Bytes) (l : Nat) :
-    afterSend v off l =
+    afterSend0 v off l =
       if (v.c.offset + l == v.c.dataBuffer.length && v.c.temp.isEmpty) = true then
         finishW { v with c := { v.c with offset := 0, sent := v.c.sent ++ off.take l, dataBuffer := [],
                                           writing := false } }
       else (none, { v with c := { v.c with offset := v.c.offset + l, sent := v.c.sent ++ off.take l } }) := by
-  unfold afterSend finishW
+  unfold afterSend0 finishW
   dsimp only
 
 theorem mergeBuf_eq (p : Params) (c : Conn) :
@@ -131,7 +131,7 @@ theorem mergeBuf_eq (p : Params) (c : Conn) :
                             temp := (mergeBuf p c).temp } := by
   unfold mergeBuf; split <;> rfl
 
-/-- `doWrite` on a transport whose socket pair is in the normal state: some prefix `d` of the pending bytes
+/-- `doWrite0` on a transport whose socket pair is in the normal state: some prefix `d` of the pending bytes
     moves to the peer's receive queue; either something stays buffered, or the buffers are now empty and
     `finishW` decides (CONNECTION_DONE / shutdown(SHUT_WR) / stop writing). -/
 theorem doWrite_clean (p : Params) (v : View) (n : Nat) (ha : v.c.aborting = false)
@@ -139,18 +139,18 @@ theorem doWrite_clean (p : Params) (v : View) (n : Nat) (ha : v.c.aborting = fal
     ∃ d : Bytes,
       (∃ db off tmp, pending v.c = d ++ (List.drop off db ++ tmp) ∧
           (0 < n → v.pk.inq.length < p.cap → d ≠ []) ∧
-          doWrite p v n = (none, ⟨{ v.c with dataBuffer := db, offset := off, temp := tmp, sent := v.c.sent ++ d },
+          doWrite0 p v n = (none, ⟨{ v.c with dataBuffer := db, offset := off, temp := tmp, sent := v.c.sent ++ d },
                                   v.k, { v.pk with inq := v.pk.inq ++ d }⟩)) ∨
       (pending v.c = d ∧
-          doWrite p v n = finishW ⟨{ v.c with dataBuffer := [], offset := 0, temp := [], sent := v.c.sent ++ d,
-                                              writing := false }, v.k, { v.pk with inq := v.pk.inq ++ d }⟩) := by
+          doWrite0 p v n = finishW ⟨{ v.c with dataBuffer := [], offset := 0, temp := [], sent := v.c.sent ++ d,
+                                               writing := false }, v.k, { v.pk with inq := v.pk.inq ++ d }⟩) := by
   have hm := mergeBuf_eq p v.c
   have hpm := pending_mergeBuf p v.c
   have hoe := offered_empty p v.c hp
   have hdw : ∀ l v', kSend p { v with c := mergeBuf p v.c } (offered p (mergeBuf p v.c)) n = (some l, v') →
-      doWrite p v n = afterSend v' (offered p (mergeBuf p v.c)) l := by
+      doWrite0 p v n = afterSend0 v' (offered p (mergeBuf p v.c)) l := by
     intro l v' h
-    simp [doWrite, ha, h]
+    simp [doWrite0, ha, h]
   generalize mergeBuf p v.c = m at hm hpm hdw hoe
   by_cases he : offered p m = []
   · -- nothing to send
@@ -201,17 +201,17 @@ theorem doWrite_clean (p : Params) (v : View) (n : Nat) (ha : v.c.aborting = fal
       · congr 1
         rw [hm]
 
-/-- `doWrite` with nothing buffered (whatever the state of the peer's socket) -/
+/-- `doWrite0` with nothing buffered (whatever the state of the peer's socket) -/
 theorem doWrite_empty (p : Params) (v : View) (n : Nat) (ha : v.c.aborting = false)
     (hr : v.k.inRst = false) (hw : v.k.shutWr = false) (hp : 0 < p.sendLimit) (he : pending v.c = []) :
-    doWrite p v n = finishW ⟨{ v.c with dataBuffer := [], offset := 0, temp := [], writing := false }, v.k, v.pk⟩ := by
+    doWrite0 p v n = finishW ⟨{ v.c with dataBuffer := [], offset := 0, temp := [], writing := false }, v.k, v.pk⟩ := by
   have hm := mergeBuf_eq p v.c
   have hpm := pending_mergeBuf p v.c
   have hoe := offered_empty p v.c hp
   have hdw : ∀ l v', kSend p { v with c := mergeBuf p v.c } (offered p (mergeBuf p v.c)) n = (some l, v') →
-      doWrite p v n = afterSend v' (offered p (mergeBuf p v.c)) l := by
+      doWrite0 p v n = afterSend0 v' (offered p (mergeBuf p v.c)) l := by
     intro l v' h
-    simp [doWrite, ha, h]
+    simp [doWrite0, ha, h]
   generalize mergeBuf p v.c = m at hm hpm hdw hoe
   have he' : offered p m = [] := by
     rw [he] at hpm
